@@ -242,10 +242,10 @@ PROPS["C12"] = {
 PROPS["C03"] = {
     "harnesses": [
         {"pkg": ".", "dir": "s3db", "entry": "VerifH_C03_paged_list", "quick": {"workers": 4, "timeout": 600}},
-        {"pkg": ".", "dir": "s3db", "entry": "VerifH_C03_open_vs_commit", "no_native": True,
+        {"pkg": ".", "dir": "s3db", "entry": "VerifH_C03_open_vs_commit",
          "quick": {"params": "preempt=2", "workers": 16, "timeout": 1800},
          "thorough": {"params": "preempt=4", "workers": 16, "timeout": 7200}},
-        {"pkg": ".", "dir": "s3db", "entry": "VerifH_C03_two_mergers", "no_native": True,
+        {"pkg": ".", "dir": "s3db", "entry": "VerifH_C03_two_mergers",
          "quick": {"params": "preempt=2", "workers": 16, "timeout": 1800},
          "thorough": {"params": "preempt=3", "workers": 16, "timeout": 7200}},
     ],
